@@ -39,9 +39,9 @@ Proof.
   fold (@zlookup Z). 
   destruct ag as [g|]; destruct (zlookup c (g_comps (n_dir st))) as [h|] eqn:E; simpl.
   - destruct (h =? g); simpl; [|reflexivity].
-    destruct (d_unregister_computation (n_disc st) c None true) as [[[d1 o1] e1] x1]. reflexivity.
+    destruct (d_unregister_computation (n_disc st) c None false) as [[[d1 o1] e1] x1]. reflexivity.
   - now rewrite zdel_absent.
-  - destruct (d_unregister_computation (n_disc st) c None true) as [[[d1 o1] e1] x1]. reflexivity.
+  - destruct (d_unregister_computation (n_disc st) c None false) as [[[d1 o1] e1] x1]. reflexivity.
   - now rewrite zdel_absent.
 Qed.
 
